@@ -62,6 +62,18 @@ def run(pid, only, tests=False, checks=None):
                     if not any(ch.tag in ("failure", "error", "skipped") for ch in tc):
                         passed.add(f"{tc.get('classname')}::{tc.get('name')}")
                 missing = [t for t in b["stable_pass"] if t not in passed]
+                if missing and len(missing) <= 3:
+                    # a randomised test of the suite (estimate_from_repeats) fails now and then under load: run the few failing tests once more
+                    ids = [t.replace("tests.", "tests/", 1).replace(".", "/", t.count(".") - 2).replace("::", "::") for t in missing]
+                    ok2 = []
+                    for t in missing:
+                        cls, name = t.split("::")
+                        mod, klass = cls.rsplit(".", 1)
+                        node = mod.replace(".", "/") + ".py::" + klass + "::" + name
+                        r2 = subprocess.run(["/venv/bin/python", "-m", "pytest", "-x", "-q", node], cwd=root, env=dict(os.environ, PYTHONPATH=root), capture_output=True, text=True)
+                        if r2.returncode == 0:
+                            ok2.append(t)
+                    missing = [t for t in missing if t not in ok2]
                 conf["baseline_tests_still_pass"] = not missing
                 conf["tests_broken"] = missing[:5]
             meta["confirmed"] = conf
